@@ -383,6 +383,14 @@ def r7_only_append_refuses_a_batch_reply(ctx):
     R.floor("C08.R7", n, 1, "sites that build the -32011 refusal")
 
 
+def rhyper_vetted_transport_options(ctx):
+    """`the limit concerns responses only`: no option of the hyper connection builder is derived from it (hyper's
+    `max_buf_size` also caps the request head it is willing to parse) - the builder carries the vetted closed list of
+    options only (= C11.R6)"""
+    from . import c11
+    c11.r6_vetted_transport_options(ctx)
+
+
 def rsib_entry_points_agree(ctx):
     """the high-level server and the low-level entry points feed the shared machinery from the same settings"""
     from .common import sibling_config_agreement
@@ -409,7 +417,7 @@ def rin_inbound_limits_from_request_limit(ctx):
     soketto_inbound_limits(ctx, "C08.INBOUND")
 
 
-RULES = [r1_size_provenance, r2_bounded_writer, r3_batch, r4_oversize_reply, r5_unbounded_constructor_gets_fixed_errors, r6_batch_policy_not_derived_from_the_response_limit, r7_only_append_refuses_a_batch_reply, rsib_entry_points_agree, rcfg_config_verbatim, rflag_success_flag_matches_json, rin_inbound_limits_from_request_limit]
+RULES = [r1_size_provenance, r2_bounded_writer, r3_batch, r4_oversize_reply, r5_unbounded_constructor_gets_fixed_errors, r6_batch_policy_not_derived_from_the_response_limit, r7_only_append_refuses_a_batch_reply, rhyper_vetted_transport_options, rsib_entry_points_agree, rcfg_config_verbatim, rflag_success_flag_matches_json, rin_inbound_limits_from_request_limit]
 
 LEVEL_TEXT = (
     "Structural necessary conditions decided exactly from the type-checked program: provenance of every response-size "
